@@ -616,6 +616,76 @@ explore_dep(int pair, int T)
 	vx_explore(&c, NULL);
 }
 
+// ---- fan-out release: the last references of a shared message are dropped concurrently -----------
+// PUB (or a SURVEYOR / BUS) fans one message out to two peers over ipc; the clones are released by
+// the send completions on the task threads and by the sender.  With the atomic operations as
+// scheduling points every order of those releases (one preemption) is executed; the accounting
+// allocator must see the message freed exactly once.
+static void
+run_fanout(void *arg)
+{
+	int        kind = (int) (intptr_t) arg; // 0 pub->sub, 1 bus, 2 surveyor->respondent
+	nng_socket src, d1, d2;
+	char       url[160];
+	vh_init(1);
+	snprintf(url, sizeof(url), "ipc://%s/c03fan-%d", vx_rundir(), (int) getpid());
+	if (kind == 0) {
+		VH_OK(nng_pub0_open(&src));
+		VH_OK(nng_sub0_open(&d1));
+		VH_OK(nng_sub0_open(&d2));
+		VH_OK(nng_sub0_socket_subscribe(d1, "", 0));
+		VH_OK(nng_sub0_socket_subscribe(d2, "", 0));
+	} else if (kind == 1) {
+		VH_OK(nng_bus0_open(&src));
+		VH_OK(nng_bus0_open(&d1));
+		VH_OK(nng_bus0_open(&d2));
+	} else {
+		VH_OK(nng_surveyor0_open(&src));
+		VH_OK(nng_respondent0_open(&d1));
+		VH_OK(nng_respondent0_open(&d2));
+	}
+	VH_OK(nng_listen(src, url, NULL, 0));
+	VH_OK(nng_dial(d1, url, NULL, 0));
+	VH_OK(nng_dial(d2, url, NULL, 0));
+	vs_settle();
+	vs_atomic_points = 1;
+	vs_window(1);
+	int rv = snd(src, "fan-out", 0);
+	vs_settle();
+	vs_window(0);
+	vs_atomic_points = 0;
+	if (rv != 0)
+		vs_fail("harness:fanout", "send: %s", nng_strerror(rv));
+	int got = 0;
+	got += rcv(d1, NNG_FLAG_NONBLOCK) == 0;
+	got += rcv(d2, NNG_FLAG_NONBLOCK) == 0;
+	vs_nontrivial();
+	vs_outcome("kind=%d got=%d", kind, got);
+	nng_socket_close(d1);
+	nng_socket_close(d2);
+	nng_socket_close(src);
+	unlink(url + 6);
+	vh_fini();
+}
+
+static void
+explore_fan(int kind)
+{
+	static const char *FN[] = { "fanout-release-pub", "fanout-release-bus",
+		"fanout-release-surveyor" };
+	vx_cfg c;
+	memset(&c, 0, sizeof(c));
+	c.prop     = "C03";
+	c.scenario = FN[kind];
+	c.run      = run_fanout;
+	c.arg      = (void *) (intptr_t) kind;
+	c.budget[VB_PREEMPT] = 1;
+	c.budget[VB_ENV]     = -1;
+	c.total              = 1;
+	c.watchdog_s         = 20;
+	vx_explore(&c, NULL);
+}
+
 static void
 explore(const char *name, void (*fn)(void *))
 {
@@ -645,6 +715,8 @@ main(int argc, char **argv)
 		explore(strdup(name), run_script);
 	}
 	explore("device", run_device);
+	for (int k = 0; k < 3; k++)
+		explore_fan(k);
 	// quick: the cooked pairings; thorough: all of them, also after a warm-up transfer
 	for (int pr = 0; pr < (T ? NPP : 7); pr++)
 		explore_dep(pr, T);
